@@ -747,6 +747,16 @@ _G = r"\d(?:_?\d)*"
 NUMERAL = re.compile(rf"(?P<sign>[+-]?)(?:(?P<ip>{_G})(?:\.(?P<fp>{_G})?)?|\.(?P<fp2>{_G}))(?:[eE](?P<es>[+-]?)(?P<ed>{_G}))?\Z", re.A)
 
 
+def big_int(digits: str) -> int:
+    """int(digits) without CPython's 4300-digit str->int limit (arithmetic on chunks), so that the
+    oracle never shares — or trips over — the implementation's limit."""
+    n = 0
+    for i in range(0, len(digits), 1000):
+        chunk = digits[i:i + 1000]
+        n = n * (10 ** len(chunk)) + int(chunk)
+    return n
+
+
 def numeral_value(text: str):
     """exact rational a text denotes under CPython's numeral grammar (after str.strip()), or None.
     Written from the language reference (float()/int() of a string), not from repair.py."""
@@ -758,11 +768,9 @@ def numeral_value(text: str):
         return None
     ip = (m.group("ip") or "").replace("_", "")
     fp = (m.group("fp") or m.group("fp2") or "").replace("_", "")
-    if len(ip) + len(fp) > 5000:
-        return None
-    mant = Fraction(int(ip + fp or "0"), 10 ** len(fp))
+    mant = Fraction(big_int(ip + fp or "0"), 10 ** len(fp))
     if m.group("ed"):
-        e = int(m.group("es") + m.group("ed").replace("_", ""))
+        e = big_int(m.group("ed").replace("_", "")) * (-1 if m.group("es") == "-" else 1)
         if mant != 0 and e > 100000:
             return "huge"          # far beyond the double range: denotes no finite double
         if mant != 0 and e < -100000:
